@@ -9,7 +9,7 @@ SPEC = {
                                     "C15_all_down_is_warning", "C15_unavailable_table",
                                     "C15_unavailable_table_design_refuted", "C15_second_call_served_from_cache",
                                     "C15_errors_leave_no_trace", "C15_recovered_upstream_answers",
-                                    "C15_range_slices_collapse", "C15_nonvacuous"]},
+                                    "C15_range_slices_collapse", "C15_group_built_in_configured_order", "C15_nonvacuous"]},
     "harness_args": lambda tier: ["C15", "--tier", tier, "--n", 150 if tier == "quick" else 1500, "--workers", 160,
                                   "--binary", 60 if tier == "quick" else 500],
     "search_args": lambda tier: ["C15", "--tier", "search", "--n", 500, "--workers", 160, "--binary", 0],
@@ -20,7 +20,7 @@ SPEC = {
         "translator ext_C15 (/verif/translator, go/ast): v1/pint ErrorType constants, decodeErrorType switch, the constants "
         "IsUnavailableError / isUnsupportedError compare with and their non-APIError defaults, IsQueryTooExpensive guard and "
         "prefixes, status-class switch and 404 branch of tryDecodingAPIError, stop condition of each FailoverGroup loop, "
-        "problemFromError switch -> Gen/C15.v (fails closed)",
+        "problemFromError switch, the construction of the upstream list and the strict flag in config.newFailoverGroup -> Gen/C15.v (fails closed)",
         "correspondence: the real client (config.newFailoverGroup -> promapi.FailoverGroup -> worker pool -> net/http) against "
         "in-process fake upstreams (bound-but-not-listening socket = refused, handler that never answers = timeout, RST on accept, "
         "status x body combinations) vs Model.Failover: answering upstream, payload marker, error class, IsUnavailableError, "
